@@ -998,6 +998,14 @@ fn gen_cases(ctx: &Ctx) -> Vec<Case> {
             }
         }
     }
+    // a full run alphabet (256 run symbols, stored as count 0) meets EVERY configuration in every tier, at a length
+    // where each byte value has a run and at one where the last pass over the alphabet is cut short
+    for len in [1536usize, 2000] {
+        let ps = pseed(&mut k);
+        for p in 0..parts_for(len) {
+            payload_cases.push(Case { kind: "payload", class: "all256_runs".to_string(), len, pseed: ps, part: (p, parts_for(len)), r4x8: p == 0, lo: 0 });
+        }
+    }
     // seeded random lengths
     let mut rng = Rng::new(ctx.seed, 80, 0);
     let nrand = ctx.budget("randlens", 250, 2000);
